@@ -101,17 +101,24 @@ func (x *XAR) checkFiles() error {
 	return nil
 }
 
-func checkFiles(toc *etree.Element, heap io.ReaderAt) error {
+func checkFiles(toc *etree.Element, heap io.ReaderAt, sigAreaSize int64) error {
 	// gather all files with checksums into a flat list and sort by offset
 	var dataFiles []*tocFile
 	for _, ed := range toc.FindElements("//file/data") {
 		ef := ed.Parent()
 		ek := ed.SelectElement("archived-checksum")
-		if ek == nil {
-			continue
-		}
 		offset, _ := strconv.ParseInt(textOf(ed.SelectElement("offset")), 10, 64)
 		length, _ := strconv.ParseInt(textOf(ed.SelectElement("length")), 10, 64)
+		if length != 0 && offset < sigAreaSize {
+			return fmt.Errorf("file %q lies in front of the end of the signature area", textOf(ef.SelectElement("name")))
+		}
+		if ek == nil {
+			if length != 0 {
+				// the verifier requires a checksum for every member with data
+				return fmt.Errorf("file %q has no archived-checksum", textOf(ef.SelectElement("name")))
+			}
+			continue
+		}
 		f := &tocFile{
 			Name:   textOf(ef.SelectElement("name")),
 			Offset: offset,
